@@ -316,7 +316,36 @@ def run(ctx: Ctx) -> None:
                         "'Requested protocol <X.ref>, which is not registered'"], stmt_key(n), what="registering a codec can unregister the reference of an older one")
     if n8 == 0:
         rep.ok("C17.R8", reg.qname, "registered references stay registered (no removal from the reference table)", reg.module.relpath)
-
+    rep.rule("C17.R12", "codec_registry() hands out the process-wide registry object: every return gives the module global it (lazily) initialises - a codec registered through "
+                        "`store.codec_registry()` must be the one the next store_blob consults")
+    cr = prog.funcs.get("dds.codec.codec_registry")
+    if cr is None:
+        raise AnchorError("dds.codec.codec_registry not found")
+    globs12 = {nm for x in cr.own_nodes() if isinstance(x, ast.Global) for nm in x.names} | {nm for nm in cr.module.assigns if nm.startswith("_")}
+    n12 = 0
+    for r in cr.own_nodes():
+        if isinstance(r, ast.Return) and r.value is not None:
+            n12 += 1
+            desc = f"`{unparse(r, 50)}` returns the shared registry"
+            if isinstance(r.value, ast.Name) and r.value.id in globs12:
+                rep.ok("C17.R12", cr.qname, desc, cr.loc(r))
+            else:
+                rep.bad("C17.R12", cr.qname, desc, cr.loc(r), [f"{cr.loc(r)}: `{unparse(r.value, 50)}` is a registry built for this call only",
+                        "a user codec registered through store.codec_registry().add_file_codec(..) lands in a throw-away registry: values of that type are written and read with the "
+                        "pickle codec instead of the registered one"], stmt_key(r), what="codec_registry() returns a fresh registry: registrations are lost")
+    rep.floor("C17.R12", n12, 1)
+    rep.rule("C17.R11", "the types a codec announces are the types its serialize_into accepts, each announced once")
+    n11 = announced_types_accepted(ctx, "C17.R11")
+    rep.floor("C17.R11", n11, 2)
+    if rep.prop == "C17":
+        from . import c12 as _c12
+        rep.rule("C17.R10", "as C12.R1-R4: every storable result is read back equal through the object cache too (the wrapper tests fetched values against None, not for truth: a pandas frame / numpy array has no truth value; it hands the codec it was given to the wrapped store)")
+        before_ = len(rep.obligations)
+        _c12.run(ctx)
+        for o_ in rep.obligations[before_:]:
+            o_.rule = "C17.R10/" + o_.rule
+        for k_ in [k_ for k_ in rep.floors if k_.startswith("C12.")]:
+            rep.floors["C17.R10/" + k_] = rep.floors.pop(k_)
 
 
 def codec_duals(ctx: Ctx, rule4: str, rule5: str) -> int:
@@ -485,6 +514,56 @@ def _class_of_expr(ctx: Ctx, f: Func, fl, e: ast.AST) -> Optional[Class]:
         if len(defs) == 1 and defs[0].value is not None:
             return _class_of_expr(ctx, f, fl, defs[0].value)
     return None
+
+
+def announced_types_accepted(ctx: Ctx, rule: str) -> int:
+    """the types a codec announces (handled_types) are the types its serialize_into accepts (the isinstance assertion on the blob, in the method or
+    in the hook it calls first), each announced once: a type announced but refused makes keep fail, a type accepted but not announced is written by
+    another codec (a bytearray pickled instead of stored verbatim)"""
+    rep = ctx.report
+    prog = ctx.prog
+    n = 0
+    for c in codec_classes(ctx):
+        ht = prog.find_method(c.qname, "handled_types")
+        ser = prog.find_method(c.qname, "serialize_into")
+        if ht is None or ser is None or ht.cls is None or ht.cls.qname in CODEC_BASES or any(_unimplemented(mm) for mm in c.methods.values()):
+            continue
+        ann: List[str] = []
+        for x in ht.own_nodes():
+            if isinstance(x, ast.Call) and isinstance(x.func, ast.Attribute) and x.func.attr == "from_type" and x.args:
+                ann.append(unparse(x.args[0]))
+        # assertion on the blob: in serialize_into or in the methods of the class it calls on self with the blob
+        scopes = [ser]
+        for call in [y for y in ser.own_nodes() if isinstance(y, ast.Call) and isinstance(y.func, ast.Attribute) and isinstance(y.func.value, ast.Name) and y.func.value.id == "self"]:
+            h = prog.find_method(c.qname, call.func.attr)
+            if h is not None and h not in scopes:
+                scopes.append(h)
+        asserted: Optional[List[str]] = None
+        where = None
+        for g in scopes:
+            ps = g.positional_params()
+            for x in g.own_nodes():
+                if isinstance(x, ast.Assert) and isinstance(x.test, ast.Call) and unparse(x.test.func) == "isinstance" and len(x.test.args) == 2 \
+                        and isinstance(x.test.args[0], ast.Name) and ps and x.test.args[0].id == ps[0]:
+                    t = x.test.args[1]
+                    asserted = [unparse(e) for e in (t.elts if isinstance(t, ast.Tuple) else [t])]
+                    where = (g, x)
+        if asserted is None or not ann:
+            continue
+        n += 1
+        desc = f"{c.name}: the announced types {ann} are the asserted ones {asserted}, each once"
+        wit = []
+        if len(set(ann)) != len(ann):
+            wit.append(f"{ht.loc()}: {sorted(x for x in set(ann) if ann.count(x) > 1)} announced twice (another type is missing)")
+        if set(ann) - set(asserted):
+            wit.append(f"{where[0].loc(where[1])}: {sorted(set(ann) - set(asserted))} announced but refused by the assertion: keeping such a value raises AssertionError")
+        if set(asserted) - set(ann):
+            wit.append(f"{ht.loc()}: {sorted(set(asserted) - set(ann))} accepted but not announced: such a value is written by the fallback (pickle) codec, the stored file is not the value verbatim")
+        if wit:
+            rep.bad(rule, c.qname, desc, ht.loc(), wit, "announced", what=f"{c.name} announces other types than it accepts")
+        else:
+            rep.ok(rule, c.qname, desc, ht.loc())
+    return n
 
 
 def _handled(ctx: Ctx, c: Class) -> Set[str]:
